@@ -20,9 +20,26 @@ pub fn resample_all<T: Flt>(cfg: &Cfg, x: &[f64]) -> Result<Streamed, String> {
 /// As `resample_all`, after `set_resample_ratio_relative(pre, false)` on the fresh resampler
 /// (the delay is read after that call).
 pub fn resample_all_pre<T: Flt>(cfg: &Cfg, x: &[f64], pre: Option<f64>) -> Result<Streamed, String> {
+    resample_all_pre2::<T>(cfg, x, pre, false)
+}
+
+/// As `resample_all_pre`; with `rejected_first` the stream is preceded by one call that the
+/// resampler must reject (last input channel one frame short) and that must leave no trace.
+pub fn resample_all_pre2<T: Flt>(cfg: &Cfg, x: &[f64], pre: Option<f64>, rejected_first: bool) -> Result<Streamed, String> {
     let mut r = cfg.build::<T>()?;
     if let Some(rel) = pre {
         r.set_resample_ratio_relative(rel, false).map_err(|e| format!("set_resample_ratio_relative({}) failed: {}", rel, e))?;
+    }
+    if rejected_first {
+        let need = r.input_frames_next();
+        if need > 0 {
+            let mut bad: Vec<Vec<T>> = vec![vec![T::from64(0.5); need]; cfg.channels];
+            bad[cfg.channels - 1].truncate(need - 1);
+            let mut ob: Vec<Vec<T>> = r.output_buffer_allocate(true);
+            if r.process_into_buffer(&bad, &mut ob, None).is_ok() {
+                return Err("a call with a short input channel was accepted".into());
+            }
+        }
     }
     let n = cfg.channels;
     let delay = r.output_delay();
